@@ -103,6 +103,13 @@ fn main() {
         Some("debug-c03") => {
             c03::debug_time(&args[1], args[2].parse().unwrap());
         }
+        Some("debug-two-crates") => {
+            let mut db = pipe::new_db(&pipe::Cfg::DEFAULT);
+            let _l = pipe::set_src(&mut db, "mylib", "pub fn twice<T, +Add<T>, +Copy<T>, +Drop<T>>(x: T) -> T { x + x }\npub const K: u8 = 7;\n#[derive(Copy, Drop, PartialEq)]\npub struct Pt { pub x: u8, pub y: u8 }\n");
+            let t = pipe::set_src_deps(&mut db, "test", "use mylib::{twice, K, Pt};\nfn f(a: u8) -> u8 { let p = Pt { x: a, y: K }; twice(p.x) + p.y }\n", &["mylib"], None);
+            println!("{:?}", pipe::diagnostics(&db, &t));
+            println!("{}", pipe::sierra(&db, &t).map(|p| p.to_string().len().to_string()).unwrap_or_else(|e| e));
+        }
         Some("list") => {
             for d in defs {
                 println!("{}", d.id);
